@@ -8,18 +8,21 @@ DRIVER = "c20"
 PROPS_MODULE = "OxyModel.Props.C20"
 AUDIT = "OxyModel/Audit/C20.lean"
 THEOREMS = ["C20.C20_transparent", "C20.C20_decorate_only_cookies", "C20.C20_decisive_at", "C20.C20_decisive",
-            "C20.C20_status_table", "C20.C20_response_limit"]
+            "C20.C20_status_table", "C20.C20_response_limit", "C20.C20_abort_restores", "C20.C20_abort_state"]
 RACE = False
 JOBS = 12
 BATCH_TIMEOUT = 600
 RULE = ("scenario = one real stack (stream/trace/connlimit/ratelimit/cbreaker/roundrobin/rebalancer/buffer, any order, repeats allowed, "
         "depth 0-5; thorough: every ordered subset of depth <= 4) built from the real packages behind a real httptest server, one layer "
         "optionally driven to its limit (parked request / consumed burst / tripped breaker / empty pool / request over the buffer maximum), "
-        "a scripted handler (status or none, headers, body chunks, flush point, hijack) and 1-3 requests; "
+        "a scripted handler (status or none, headers, body chunks, flush point, hijack) and 1-5 requests against the same stack instance, "
+        "some of which the handler leaves by panic(http.ErrAbortHandler) (connlimit maxima are exactly what sequential requests need, so a slot "
+        "that is not given back shows on the next request); "
         "non-trivial = depth >= 2 and (a layer intervenes, or the handler flushes or hijacks)")
 ASSUMPTIONS = [
     "net/http's own response writing, chunking, Content-Type sniffing of the error bodies and Hijack/Flush of *http.response are stdlib behaviour: exercised by every scenario (depth-0 stacks are the bare handler), not proved",
     "the per-layer decision whether to intervene is an input of the stack model (tripped / maxReq vs body length); that the decision itself follows the limits is C03/C04/C05/C02/C15",
+    "a handler leaving by panic(http.ErrAbortHandler): what the client sees of that exchange is not compared (canonicalised as `aborted`), only that the handler ran once and what later requests get",
     "handlers do not write a body with 204/304, do not set Content-Length/Grpc-Status themselves and requests carry no sticky cookie; HEAD requests and buffer retries are not generated",
     "flush=1 means the flushed bytes were read by the client while the handler was still running (negative answer only after 1 s and 500 executed polls)",
     "an HTTP exchange that hits the 25 s client timeout is repeated once as a fresh request (machine-wide stalls during memory exhaustion by unrelated processes were observed); a reproducible hang still fails",
@@ -109,9 +112,19 @@ def monitor(ops, outs):
         if f[0] != "req" or stack is None:
             continue
         blen = 0
+        abort = False
         for t in f[1:]:
             if t.startswith("body="):
                 blen = int(t[5:])
+            if t == "abort=1":
+                abort = True
+        if abort and o.startswith("aborted "):
+            # the handler ran and panicked; legitimate only if no layer had a reason to answer by itself, and only once
+            if iv is not None and stack[iv]["kind"] in STATEFUL or any(lay["kind"] == "buffer" and lay["q"] > 0 and blen > lay["q"] for lay in stack):
+                bad.append("decisive: a layer intervenes but the (aborting) handler was invoked: %s" % o)
+            elif o != "aborted invoked=1":
+                bad.append("transparent: aborting handler invoked more than once: %s" % o)
+            continue
         if not o.startswith("status="):
             bad.append("no-response: %r did not produce one complete response: %s" % (l, o))
             continue
@@ -126,6 +139,9 @@ def monitor(ops, outs):
             elif lay["kind"] == "buffer" and lay["q"] > 0 and blen > lay["q"]:
                 I.append(i)
         total = sum(sc["chunks"])
+        if abort and not I:
+            bad.append("transparent: no layer has a reason to intervene but the request (aborting handler) was answered without it: %s" % o[:60])
+            continue
         if I:
             o_idx = min(I)
             if invoked != 0:
@@ -206,6 +222,8 @@ def describe(ops, outs, hist):
                 hist["script:flush"] += 1
         elif f[0] == "req":
             hist["op:req"] += 1
+            if "abort=1" in f:
+                hist["op:req-abort"] += 1
             if o.startswith("status="):
                 kv = dict(t.split("=", 1) for t in o.split())
                 hist["out:status=%s" % kv["status"]] += 1
@@ -274,6 +292,11 @@ def reqs(rng, toks, iv):
             out.append("req body=%d" % max(1, q + rng.choice([-3, 0, 0, 1])))
         else:
             out.append("req body=%d" % rng.choice([1, 7, 8, 16, 40, 100, 5000]))
+    if rng.random() < 0.4:
+        # aborted request(s) somewhere before the last request: what follows must be served as if nothing had happened
+        for _ in range(rng.choice([1, 1, 2])):
+            k = rng.randrange(len(out))
+            out.insert(k, out[k] + " abort=1")
     return out
 
 
@@ -303,12 +326,14 @@ def exhaustive(tier):
             toks = [k + ("/s" if k in ("roundrobin", "rebalancer") else "") + ("/q16" if k == "buffer" else "") for k in kinds]
             sv = ",".join(toks) or "-"
             yield ["cfg stack=%s intervene=none h=%s" % (sv, FIXED_FLUSH), "req", "req body=16"]
-            yield ["cfg stack=%s intervene=none h=%s" % (sv, FIXED_HIJACK), "req body=9"]
+            yield ["cfg stack=%s intervene=none h=%s" % (sv, FIXED_HIJACK), "req body=9 abort=1", "req body=9", "req abort=1", "req abort=1", "req"]
             for i, k in enumerate(kinds):
                 if k == "buffer":
                     yield ["cfg stack=%s intervene=%d h=%s" % (sv, i, FIXED_FLUSH), "req body=17"]
-                else:
+                elif k == "connlimit":
                     yield ["cfg stack=%s intervene=%d h=%s" % (sv, i, FIXED_FLUSH), "req", "req body=3"]
+                else:
+                    yield ["cfg stack=%s intervene=%d h=%s" % (sv, i, FIXED_HIJACK), "req abort=1", "req body=3"]
 
 
 def post_check(chk):
